@@ -12,8 +12,14 @@ import (
 	"bytes"
 	"fmt"
 	"hash/fnv"
+	"net"
+	"os"
 	"strings"
 	"sync"
+	"sync/atomic"
+	"time"
+
+	"storj.io/drpc"
 
 	"verifharness/census"
 	"verifharness/payload"
@@ -160,11 +166,63 @@ var shapes = []shape{
 	}},
 }
 
-func scenario(id string, seed uint64, sh shape, held bool) runner.Result {
+// realTransports returns constructors of real transports: net.Pipe, loopback TCP, unix socketpair.
+func realTransport(kind string) func() (drpc.Transport, drpc.Transport, func()) {
+	return func() (drpc.Transport, drpc.Transport, func()) {
+		switch kind {
+		case "net.Pipe":
+			a, b := net.Pipe()
+			return a, b, func() { a.Close(); b.Close() }
+		default:
+			network, addr := "tcp", "127.0.0.1:0"
+			if kind == "unix" {
+				network, addr = "unix", fmt.Sprintf("%s/.build/c01-%d-%d.sock", os.Getenv("VERIF_DIR"), os.Getpid(), sockN.Add(1))
+			}
+			lis, err := net.Listen(network, addr)
+			if err != nil {
+				a, b := net.Pipe()
+				return a, b, func() { a.Close(); b.Close() }
+			}
+			ch := make(chan net.Conn, 1)
+			go func() { c, _ := lis.Accept(); ch <- c }()
+			a, err := net.Dial(network, lis.Addr().String())
+			if err != nil {
+				lis.Close()
+				p1, p2 := net.Pipe()
+				return p1, p2, func() { p1.Close(); p2.Close() }
+			}
+			b := <-ch
+			lis.Close()
+			return a, b, func() { a.Close(); b.Close() }
+		}
+	}
+}
+
+var sockN atomic.Int64
+
+func scenario(id string, seed uint64, sh shape, held bool, real string) runner.Result {
 	r := &payload.SplitMix{S: seed}
 	manual := r.Intn(4) == 0 && sh.name != "closer-race" && sh.name != "unary"
 	cfg := prog.GenConfig(r, manual)
+	if real != "" {
+		cfg.Real = realTransport(real)
+		cfg.Desc += " transport=" + real
+		held = false
+	}
 	s := sh.gen(r, cfg, manual)
+	if real != "" {
+		// the census cannot see through real sockets: no wait-for-quiescence actions
+		strip := func(a []prog.Act) []prog.Act {
+			var o []prog.Act
+			for _, x := range a {
+				if x.Op != 'q' {
+					o = append(o, x)
+				}
+			}
+			return o
+		}
+		s.Client, s.Handler = strip(s.Client), strip(s.Handler)
+	}
 	s.Tag = 1 + uint64(r.Intn(1000))
 	s.Clean = sh.name != "closer-race"
 	s.Client = withFlush(s.Client, manual)
@@ -185,7 +243,7 @@ func scenario(id string, seed uint64, sh shape, held bool) runner.Result {
 		fmu.Unlock()
 	}
 	flushChecks := 0
-	if !manual {
+	if !manual && real == "" {
 		x.AfterSend = func(l *prog.RPCLog, side byte, msg []byte, err error) {
 			if err != nil {
 				return
@@ -199,6 +257,36 @@ func scenario(id string, seed uint64, sh shape, held bool) runner.Result {
 			fmu.Unlock()
 			if !tp.handed(msg) {
 				failf("MsgSend of a %d-byte message returned nil (automatic flushing) but its final frame has not been handed to the transport (%c side)", len(msg), side)
+			}
+		}
+	}
+	// under ManualFlush the same is required once RawFlush / CloseSend / Close returned nil
+	var sentMu sync.Mutex
+	sentBy := map[byte][][]byte{}
+	if manual && real == "" {
+		x.AfterSend = func(l *prog.RPCLog, side byte, msg []byte, err error) {
+			if err == nil {
+				sentMu.Lock()
+				sentBy[side] = append(sentBy[side], msg)
+				sentMu.Unlock()
+			}
+		}
+		x.AfterFlush = func(l *prog.RPCLog, side byte, op string) {
+			tp := tapA
+			if side == 's' {
+				tp = tapB
+			}
+			sentMu.Lock()
+			msgs := append([][]byte(nil), sentBy[side]...)
+			sentMu.Unlock()
+			for _, m := range msgs {
+				fmu.Lock()
+				flushChecks++
+				fmu.Unlock()
+				if !tp.handed(m) {
+					failf("ManualFlush: %s returned nil on the %c side but a %d-byte message sent before it has not been handed to the transport", op, side, len(m))
+					break
+				}
 			}
 		}
 	}
@@ -264,7 +352,17 @@ func scenario(id string, seed uint64, sh shape, held bool) runner.Result {
 	if st == "watchdog" {
 		return runner.Inconcl(id, "watchdog: "+hist)
 	}
-	census.Quiesce(rig.Watchdog)
+	if real == "" {
+		census.Quiesce(rig.Watchdog)
+	} else {
+		// the handler may still be returning; give it a bounded moment
+		for i := 0; i < 2000; i++ {
+			if ran, done := x.Log(s.Tag).HandlerState(); !ran || done {
+				break
+			}
+			time.Sleep(time.Millisecond)
+		}
+	}
 	l := x.Log(s.Tag)
 	evs := l.Snapshot()
 	for _, e := range evs {
@@ -369,8 +467,10 @@ func scenario(id string, seed uint64, sh shape, held bool) runner.Result {
 			}
 		}
 	}
-	for _, w := range append(prog.WireFindings(x.Rig.Pair.A), prog.WireFindings(x.Rig.Pair.B)...) {
-		failf("%s", w)
+	if real == "" {
+		for _, w := range append(prog.WireFindings(x.Rig.Pair.A), prog.WireFindings(x.Rig.Pair.B)...) {
+			failf("%s", w)
+		}
 	}
 	_ = bytes.Equal
 	if len(fails) > 0 {
@@ -409,8 +509,18 @@ func gen(tier string, seed uint64) []runner.Scenario {
 			held := i%4 == 3 && sh.name != "unary"
 			id := fmt.Sprintf("%s/%d", sh.name, i)
 			out = append(out, runner.Scenario{ID: id, Run: func() runner.Result {
-				return scenario(id, payload.Hash(seed, 0xC01, uint64(i), uint64(len(sh.name))), sh, held)
+				return scenario(id, payload.Hash(seed, 0xC01, uint64(i), uint64(len(sh.name))), sh, held, "")
 			}})
+			// the same program over real transports (delivery oracles only): simulated close/EOF/buffering must not be kinder than real ones
+			if i%10 == 0 {
+				for _, real := range []string{"net.Pipe", "tcp", "unix"} {
+					real := real
+					idr := fmt.Sprintf("%s/%d/%s", sh.name, i, real)
+					out = append(out, runner.Scenario{ID: idr, Run: func() runner.Result {
+						return scenario(idr, payload.Hash(seed, 0xC01, uint64(i), uint64(len(sh.name))), sh, false, real)
+					}})
+				}
+			}
 		}
 	}
 	return out
@@ -420,7 +530,7 @@ func main() {
 	runner.Main(runner.Check{
 		Property: "C01",
 		Level:    "exploration",
-		Rule:     "one case = one RPC of one of 7 shapes (unary, client-stream, server-stream, bidirectional echo, 2-3 concurrent senders on the client / on the server, half-close racing the last sends) in one seeded cell of split size {-1,1,2,7,64,1024,64K} x writer buffer {1,16,100,4096,1M} x manual/auto flush x cancel mode x transport capacity {rendezvous,64,4096,unbounded} x read chunkers, with message sizes at the split/buffer boundaries (0,1,split-1,split,split+1,wbuf..,3*split+5,200KiB); one case in four parks a receiver between taking and releasing the lent buffer while further messages arrive; others run under perturbed scheduling. Non-trivial: all. Distinct: by cell and program; evidence counts configuration cells and point-hit sequences seen.",
+		Rule:     "one case = one RPC of one of 7 shapes (unary, client-stream, server-stream, bidirectional echo, 2-3 concurrent senders on the client / on the server, half-close racing the last sends) in one seeded cell of split size {-1,1,2,7,64,1024,64K} x writer buffer {1,16,100,4096,1M} x manual/auto flush x cancel mode x transport capacity {rendezvous,64,4096,unbounded} x read chunkers, with message sizes at the split/buffer boundaries (0,1,split-1,split,split+1,wbuf..,3*split+5,200KiB); one case in four parks a receiver between taking and releasing the lent buffer while further messages arrive; others run under perturbed scheduling; every tenth program is repeated over net.Pipe, loopback TCP and a unix socket with the delivery oracles only. Non-trivial: all. Distinct: by cell and program; evidence counts configuration cells and point-hit sequences seen.",
 		Assumptions: []string{
 			"flush-at-return is asserted under automatic flushing only; under ManualFlush the scripts flush explicitly after each burst",
 			"for one consumer, FIFO-queue linearizability reduces to: per-sender order plus 'a send that returned before another began is received first'; this is checked directly on the recorded history",
